@@ -40,6 +40,11 @@ def stmts(vt, maxsize, emptying):
         st.append(S('SELECT %s FROM t WHERE %s' % (al, emptying), 'global-empty-input'))
         st.append(S('SELECT g, %s FROM t WHERE %s GROUP BY g' % (al, emptying), 'grouped-empty-input'))
         st.append(S('SELECT %s FROM t WHERE g IS NULL' % al, 'global-filtered'))
+    # two grouping columns (the all-NULL key tuple, perfect-hash stride changes when a new key value appears)
+    for al in ('COUNT(*)', 'COUNT(v)', 'MIN(v), MAX(v)'):
+        st.append({'sql': 'SELECT g, v, %s FROM t GROUP BY g, v' % al, 'tag': 'grouped-2keys', 'strict': True, 'nontrivial': True})
+    st.append({'sql': 'SELECT g, v FROM t GROUP BY g, v', 'tag': 'grouped-2keys-noagg', 'strict': True, 'nontrivial': True})
+    st.append({'sql': 'SELECT DISTINCT g, v FROM t', 'tag': 'distinct-2cols', 'strict': True, 'nontrivial': True})
     return st
 
 
